@@ -120,6 +120,9 @@ def replay(rec, ctx):
     tables = (ctx or rec)["tables"]
     h = rec["h"]
     ins = build(kind, tables, h[0]["par"])
+    # a second instrument with the other parameter values lives alongside and is never touched: instruments share nothing
+    other = build(kind, tables, {p: (2 if v == 1 else 1) for p, v in h[0]["par"].items()})
+    other_before = readout(kind, other)
     outcome = "ok"
     for e in h[1:]:
         outcome = "ok"
@@ -142,8 +145,17 @@ def replay(rec, ctx):
         bad(f"outcome-{outcome}-expected-{rec['outcome']}", json.dumps(h[1:])[:300])
         if outcome.startswith("raised"):
             return viol
+    a = readout(kind, ins)             # read before the twin is constructed
     fresh = build(kind, tables, rec["par"])
-    a, b = readout(kind, ins), readout(kind, fresh)
+    b = readout(kind, fresh)
+    other_after = readout(kind, other)
+    for k in other_before:
+        if other_after[k] != other_before[k]:
+            bad(f"another-instrument-changed.{k}", f"an untouched instrument read {other_before[k]!r} before and {other_after[k]!r} after this history"[:400])
+    a2 = readout(kind, ins)
+    for k in a:
+        if a2[k] != a[k]:
+            bad(f"changed-by-constructing-another-instrument.{k}", f"{a[k]!r} -> {a2[k]!r}"[:400])
     for k in a:
         if a[k] != b[k]:
             bad(f"differs-from-fresh.{k}", f"after history: {a[k]!r}; fresh: {b[k]!r}"[:400])
